@@ -9,7 +9,7 @@ from ..judge import judge
 from .C23 import problem, cbc_shim
 from pydcop.distribution.objects import ImpossibleDistributionException
 
-SHAPES = ["pair", "path3", "triangle", "tern", "unarypair", "star4"]
+SHAPES = ["pair", "path3", "triangle", "tern", "unarypair", "star4", "parallel", "ternpair"]
 
 
 def tables(method, cg, agents, comps, mem, load):
